@@ -128,6 +128,9 @@ fn candidates(sc: &Scenario) -> Vec<Scenario> {
         }
     }
     // history
+    if sc.token_repr != 0 {
+        push(&|c| c.token_repr = 0);
+    }
     if sc.repeat > 1 {
         push(&|c| c.repeat = 1);
         push(&|c| c.repeat /= 2);
